@@ -623,6 +623,12 @@ def run(ctx):
         clause13_format_strings(ctx, P)
         clause14_signed_shifts(ctx, P)
         clause14b_literal_shifts(ctx, P)
+        # use after release / double release / dangling members: the ownership rules of C07.1 are memory-safety rules as well
+        from ..core.own import Own
+        from . import c07
+        own_ = Own(ctx, P, cg)
+        c07.clause1_own(ctx, P, cg, own_)
+        c07.clause13_freed_field_is_reassigned(ctx, P)
         clause1_snprintf(ctx, P)
         c16.clause6_slots(ctx, P, cg)
         c12.clause2_callbacks(ctx, P, cg)
